@@ -25,6 +25,7 @@ from __future__ import annotations
 import ast
 import json
 import os
+import sys
 from fractions import Fraction
 from pathlib import Path
 from typing import Any
@@ -32,10 +33,13 @@ from typing import Any
 from . import core
 from .rules.units import _add, _mul, show
 
+if sys.getrecursionlimit() < 20000:
+    sys.setrecursionlimit(20000)
 REF_ROOT = core.VERIF / "reference"
 MAX_LEAVES = 3000
+MERGE_LIMIT = 60000
 MAX_DEPTH = 3
-TIME_BUDGET = float(os.environ.get("PVS_SEM_BUDGET", "6"))     # seconds per function summary
+TIME_BUDGET = float(os.environ.get("PVS_SEM_BUDGET", "4"))     # seconds per function summary
 _DEADLINE = [0.0]
 
 
@@ -902,7 +906,7 @@ class Exec:
         if len(a) == 1 and len(b) == 1 and a[0][1] == FALL and b[0][1] == FALL:
             sa, sb = a[0][0], b[0][0]
             if _eff_same(sa.effects, sb.effects) and len(sa.conds) == len(st.conds) + 1 == len(sb.conds) \
-                    and _merge_cost(st, sa, sb, test) <= 400:
+                    and _merge_cost(st, sa, sb, test) <= MERGE_LIMIT:
                 merged = State(dict(st.env), dict(st.stores), list(sa.effects), list(st.conds))
                 for k in set(sa.env) | set(sb.env):
                     va, vb = sa.env.get(k), sb.env.get(k)
@@ -1045,59 +1049,103 @@ class Exec:
 
     # -- leaves --------------------------------------------------------------------------------------------------------
     def leafset(self, st: State, kind: str, val, finals) -> frozenset:
-        """expand the conditional values of one path into canonical leaves"""
-        items: list[Any] = [("exit", kind, val)]
+        """canonical leaves of one path.  Every component of the outcome (the exit value - argument by argument when it is
+        a constructor call / tuple -, each stored attribute, each effect, each loop-carried final value) is expanded on its
+        own: a component only forks on the atoms it depends on, and two functions whose components agree agree as a whole."""
+        items: list[Any] = []
+        v = val
+        if isinstance(v, ast.AST) and kind == RET and isinstance(v, (ast.Call, ast.Tuple)) and not _is_raise(v):
+            if isinstance(v, ast.Tuple) and not any(isinstance(x, ast.Starred) for x in v.elts):
+                items.append(("exit", kind, ast.Constant(f"<tuple/{len(v.elts)}>")))
+                for i, x in enumerate(v.elts):
+                    items.append(("exitarg", f"[{i}]", x))
+            elif isinstance(v, ast.Call) and not any(isinstance(a, ast.Starred) for a in v.args) and not any(k.arg is None for k in v.keywords) \
+                    and len(v.args) + len(v.keywords) >= 3:
+                names = self.printer.signature(v)
+                items.append(("exit", kind, ast.Call(v.func, [], [])))
+                for i, a in enumerate(v.args):
+                    items.append(("exitarg", names[i] if names is not None and i < len(names) else f"[{i}]", a))
+                for k in v.keywords:
+                    items.append(("exitarg", k.arg, k.value))
+            else:
+                items.append(("exit", kind, v))
+        else:
+            items.append(("exit", kind, v))
         for k in sorted(st.stores):
             items.append(("store", k, st.stores[k]))
         for i, e in enumerate(st.effects):
             items.append(("effect", i, e))
-        for n, v in finals:
-            items.append(("final", n, v))
+        for n, v2 in finals:
+            items.append(("final", n, v2))
         leaves: set = set()
-        self._expand(list(st.conds), {}, items, leaves)
-        return frozenset(_minimise(leaves))
+        conds = list(st.conds)
+        path_key = None
+        for it in items:
+            part: set = set()
+            try:
+                self._cap = 160
+                self._expand(conds, {}, [it], part)
+                leaves |= _minimise(part)
+            except Giveup as e:
+                if "leaves" not in str(e):
+                    raise
+                # too many combinations to enumerate: compare the conditional value structurally instead (the tests then
+                # have to come in the same order on both sides)
+                if path_key is None:
+                    path_key = frozenset((self._cond_canon(t if p else ast.UnaryOp(ast.Not(), t)), True) for t, p in conds)
+                leaves.add((path_key, (self._item_struct(it),)))
+        return frozenset(leaves)
+
+    def _item_struct(self, it):
+        def rec(x):
+            if isinstance(x, ast.AST):
+                return self.printer.s(x)
+            if isinstance(x, (tuple, list)):
+                return tuple(rec(y) for y in x)
+            return x
+        return ("struct",) + tuple(rec(x) for x in it)
 
     def _expand(self, conds, decided: dict, items, leaves: set) -> None:
         """fork on one undecided atom at a time (in evaluation order) until every path condition is decided and no
-        conditional value is left; shared sub-expressions are resolved once per fork (memo by node identity)"""
-        if len(leaves) > MAX_LEAVES:
+        conditional value is left.  Each fork first simplifies conditions and values under the decisions taken so far and
+        hands the simplified forms to its children, so the work shrinks as decisions accumulate; shared sub-expressions are
+        resolved once per fork (memo by node identity)."""
+        if len(leaves) > getattr(self, "_cap", MAX_LEAVES):
             raise Giveup("too many leaves")
         _tick()
         memo: dict[int, Any] = {}
         ask: list[str] = []
-        # 1. path conditions under the decisions taken so far
+        new_conds = []
         for test, pol in conds:
             t = self._truth(test, decided, memo, ask)
             if t is None:
-                break
-            if t != pol:
+                new_conds.append((self._resolve(test, decided, memo, ask), pol))
+            elif t != pol:
                 return                      # infeasible combination
+        new_items = [self._resolve_item(it, decided, memo, ask) for it in items]
         if not ask:
-            # 2. conditional values inside the outcome
-            new_items = [self._resolve_item(it, decided, memo, ask) for it in items]
-            if not ask:
-                raised = None
-                for it in new_items:
-                    for node in _item_exprs(it):
-                        r = _find_raise(node)
-                        if r is not None and raised is None:
-                            raised = r
-                cset = self._simplify(decided)
-                if cset is None:
-                    return
-                if raised is not None:
-                    leaves.add((cset, (("exit", RAISE, self.printer.s(raised)),)))
-                else:
-                    leaves.add((cset, tuple(x for x in (self._item_canon(it) for it in new_items) if not (x[0] == "store" and x[2] == "$same"))))
+            raised = None
+            for it in new_items:
+                for node in _item_exprs(it):
+                    r = _find_raise(node)
+                    if r is not None and raised is None:
+                        raised = r
+            cset = self._simplify(decided)
+            if cset is None:
                 return
+            if raised is not None:
+                leaves.add((cset, (("exit", RAISE, self.printer.s(raised)),)))
+            else:
+                leaves.add((cset, tuple(x for x in (self._item_canon(it) for it in new_items) if not (x[0] == "store" and x[2] == "$same"))))
+            return
         k = ask[0]
         for v in (True, False):
             d2 = dict(decided)
             d2[k] = v
-            self._expand(conds, d2, items, leaves)
+            self._expand(new_conds, d2, new_items, leaves)
 
     def _truth(self, e, decided: dict, memo: dict, ask: list):
-        """value of a condition under `decided`; None when an atom is still open (the first one is put into `ask`)"""
+        """value of a condition under `decided`; None when an atom is still open (the first open one is put into `ask`)"""
         if isinstance(e, ast.UnaryOp) and isinstance(e.op, ast.Not):
             t = self._truth(e.operand, decided, memo, ask)
             return None if t is None else (not t)
@@ -1146,15 +1194,20 @@ class Exec:
             if tb is None:
                 return None
             return (ta == tb) if isinstance(e.ops[0], ast.Eq) else (ta != tb)
+        hit = memo.get(("t", id(e)))
+        if hit is not None:
+            return hit[1]
         r = self._resolve(e, decided, memo, ask)
-        if ask:
+        if _has_ite(r):
+            # the atom still contains an open conditional value: its test has been asked while resolving
             return None
-        if r is not e:
-            return self._truth(r, decided, memo, ask)
         k, p = self.printer.atom(r)
         if k in decided:
-            return decided[k] if p else (not decided[k])
-        ask.append(k)
+            res = decided[k] if p else (not decided[k])
+            memo[("t", id(e))] = (e, res)
+            return res
+        if not ask:
+            ask.append(k)
         return None
 
     def _resolve(self, n, decided: dict, memo: dict, ask: list):
@@ -1167,8 +1220,11 @@ class Exec:
         if isinstance(n, ast.IfExp):
             t = self._truth(n.test, decided, memo, ask)
             if t is None:
-                return n
-            r = self._resolve(n.body if t else n.orelse, decided, memo, ask)
+                a_, b_ = self._resolve(n.body, decided, memo, ask), self._resolve(n.orelse, decided, memo, ask)
+                tt = self._resolve(n.test, decided, memo, ask)
+                r = n if (a_ is n.body and b_ is n.orelse and tt is n.test) else ast.IfExp(tt, a_, b_)
+            else:
+                r = self._resolve(n.body if t else n.orelse, decided, memo, ask)
         else:
             changed = False
             vals = {}
@@ -1177,15 +1233,11 @@ class Exec:
                     nv = []
                     for x in v:
                         y = self._resolve(x, decided, memo, ask) if isinstance(x, ast.AST) else x
-                        if ask:
-                            return n
                         changed = changed or (y is not x)
                         nv.append(y)
                     vals[f] = nv
                 elif isinstance(v, ast.AST):
                     y = self._resolve(v, decided, memo, ask)
-                    if ask:
-                        return n
                     changed = changed or (y is not v)
                     vals[f] = y
                 else:
@@ -1196,14 +1248,11 @@ class Exec:
                     setattr(r, f, v)
             else:
                 r = n
-        if not ask:
-            memo[id(n)] = (n, r)
+        memo[id(n)] = (n, r)
         return r
 
     def _resolve_item(self, it, decided, memo, ask):
         def rec(x):
-            if ask:
-                return x
             if isinstance(x, ast.AST):
                 return self._resolve(x, decided, memo, ask)
             if isinstance(x, tuple):
@@ -1216,13 +1265,14 @@ class Exec:
     def _simplify(self, decided: dict) -> frozenset:
         """drop path-condition atoms implied by others through the class hierarchy (isinstance(x, Sub) => isinstance(x,
         Base)); an impossible combination yields None"""
-        import re as _re
         items = dict(decided)
         inst = []
         for k, v in items.items():
-            m = _re.fullmatch(r"isinstance\((.+), ([\w.]+)\)", detok(k, 8))
-            if m:
-                inst.append((k, m.group(1), m.group(2).split(".")[-1], v))
+            info = _isinstance_info(k)
+            if info is not None:
+                inst.append((k, info[0], info[1], v))
+        if len(inst) < 2:
+            return frozenset(items.items())
         drop = set()
         for k1, x1, c1, v1 in inst:
             for k2, x2, c2, v2 in inst:
@@ -1528,6 +1578,115 @@ def summary(fn: ast.FunctionDef, ctx: ModCtx, cls: str | None):
     return sig, frozenset(leaves)
 
 
+# ---------------------------------------------------------------------------------------------------------------------
+# large functions: structure-preserving comparison with semantic leaves
+
+SMALL_NODES = 120
+
+
+def _assigned_names(stmts) -> list[str]:
+    out: list[str] = []
+    for st in stmts:
+        for n in ast.walk(st):
+            if isinstance(n, ast.Name) and isinstance(n.ctx, ast.Store) and n.id not in out:
+                out.append(n.id)
+    return out
+
+
+def _loads(stmts) -> set[str]:
+    return {n.id for st in stmts for n in ast.walk(st) if isinstance(n, ast.Name) and isinstance(n.ctx, ast.Load)}
+
+
+def _has_loop_or_try(st) -> bool:
+    return any(isinstance(n, (ast.For, ast.While, ast.Try, ast.With, ast.FunctionDef, ast.Lambda)) for n in ast.walk(st))
+
+
+def chunked(stmts: list[ast.stmt], ctx: ModCtx, cls: str | None, live_after: set[str], local_defs: dict, loop_counter: list):
+    """canonical form of a statement list that keeps its top-level structure: runs of small statements are summarised
+    semantically (symbolic inputs, the variables still needed afterwards as outputs), large compound statements are
+    descended into.  Used when the whole-function summary is too expensive."""
+    out: list[Any] = []
+    i = 0
+    n = len(stmts)
+    while i < n:
+        st = stmts[i]
+        if isinstance(st, ast.FunctionDef):
+            local_defs[st.name] = st
+            i += 1
+            continue
+        if _size(st) <= SMALL_NODES and not _has_loop_or_try(st):
+            j, sz = i, 0
+            while j < n and not isinstance(stmts[j], ast.FunctionDef) and _size(stmts[j]) <= SMALL_NODES and not _has_loop_or_try(stmts[j]) \
+                    and sz + _size(stmts[j]) <= 2 * SMALL_NODES:
+                sz += _size(stmts[j])
+                j += 1
+            group = stmts[i:j]
+            later = _loads(stmts[j:]) | live_after
+            ex = Exec(ctx, cls, loop_base=loop_counter)
+            ex.local_defs = dict(local_defs)
+            assigned = [v for v in _assigned_names(group) if v in later]
+            leaves: set = set()
+            for s2, kind, val in ex.block(list(group), State()):
+                finals = [(v, s2.env.get(v, _name(v))) for v in sorted(assigned)] if kind == FALL else []
+                leaves |= ex.leafset(s2, kind, val, finals=finals)
+            out.append(("sem", frozenset(leaves)))
+            i = j
+            continue
+        later = _loads(stmts[i + 1:]) | live_after
+        pr = Printer(ctx, cls)
+        if isinstance(st, ast.If):
+            ex = Exec(ctx, cls, loop_base=loop_counter)
+            test = ex.ev(st.test, State())
+            k = ex._cond_canon(test)
+            out.append(("if", k, chunked(list(st.body), ctx, cls, later, local_defs, loop_counter),
+                        chunked(list(st.orelse), ctx, cls, later, local_defs, loop_counter)))
+        elif isinstance(st, (ast.For, ast.While)):
+            inner_live = later | _loads([st])
+            head = ("for", pr.s(st.target), pr.s(Exec(ctx, cls).ev(st.iter, State()))) if isinstance(st, ast.For) else \
+                ("while", Exec(ctx, cls)._cond_canon(Exec(ctx, cls).ev(st.test, State())))
+            out.append(("loop", head, chunked(list(st.body), ctx, cls, inner_live, local_defs, loop_counter),
+                        chunked(list(st.orelse), ctx, cls, later, local_defs, loop_counter)))
+        elif isinstance(st, ast.Try):
+            hs = []
+            for h in st.handlers:
+                hs.append((pr.s(h.type) if h.type is not None else "*", h.name or "", chunked(list(h.body), ctx, cls, later, local_defs, loop_counter)))
+            out.append(("try", chunked(list(st.body), ctx, cls, later | _loads([st]), local_defs, loop_counter), tuple(hs),
+                        chunked(list(st.orelse), ctx, cls, later, local_defs, loop_counter), chunked(list(st.finalbody), ctx, cls, later, local_defs, loop_counter)))
+        elif isinstance(st, ast.With):
+            out.append(("with", tuple(pr.s(it.context_expr) for it in st.items), chunked(list(st.body), ctx, cls, later, local_defs, loop_counter)))
+        else:
+            raise Giveup(f"large {type(st).__name__}")
+        i += 1
+    return tuple(out)
+
+
+class _AlphaLocals(ast.NodeTransformer):
+    def __init__(self, ren):
+        self.ren = ren
+
+    def visit_Name(self, node):
+        if node.id in self.ren:
+            return ast.Name(self.ren[node.id], node.ctx)
+        return node
+
+
+def chunk_summary(fn: ast.FunctionDef, ctx: ModCtx, cls: str | None, alpha: bool):
+    import time
+    _DEADLINE[0] = time.time() + 4 * TIME_BUDGET
+    body = list(fn.body)
+    if body and isinstance(body[0], ast.Expr) and isinstance(body[0].value, ast.Constant) and isinstance(body[0].value.value, str):
+        body = body[1:]
+    if alpha:
+        params = set(_params(fn)[0]) | {fn.args.vararg.arg if fn.args.vararg else "", fn.args.kwarg.arg if fn.args.kwarg else ""}
+        ren = {v: f"$a{i}" for i, v in enumerate(x for x in _assigned_names(body) if x not in params)}
+        body = [_AlphaLocals(ren).visit(_c(st)) for st in body]
+    pos, defaults, vararg, kwarg, kwonly = _params(fn)
+    pr = Printer(ctx, cls)
+    sig = (tuple(pos), tuple(sorted((k, pr.s(v)) for k, v in defaults.items())), vararg, kwarg, tuple(kwonly),
+           tuple(sorted(core.dotted(d) or core.un(d) for d in fn.decorator_list)))
+    return sig, chunked(body, ctx, cls, set(), {}, [0])
+
+
 def _strip_positions(fn: ast.AST) -> str:
     return ast.dump(fn, include_attributes=False)
 
@@ -1583,6 +1742,19 @@ def subclasses_of(base: str) -> set[str]:
                 tab.setdefault(b, set()).add(c)
         _SUBCLS[root] = tab
     return tab.get(base, set())
+
+
+_ISINST: dict[str, Any] = {}
+
+
+def _isinstance_info(key: str):
+    if key in _ISINST:
+        return _ISINST[key]
+    import re as _re
+    m = _re.fullmatch(r"isinstance\((.+), ([\w.]+)\)", detok(key, 8)) if key.startswith("#") else None
+    r = (m.group(1), m.group(2).split(".")[-1]) if m else None
+    _ISINST[key] = r
+    return r
 
 
 _LAYOUT = {"int": "int", "bool": "int", "float": "float", "str": "str", "timedelta": "timedelta", "date": "date", "datetime": "date",
@@ -1704,9 +1876,20 @@ def hybridise(tree: ast.Module, text: str, rel: str) -> ast.Module:
             sa = summary(node, ctx_a, cls)
             sr = summary(rnode, ctx_r, rcls)
         except (Giveup, RecursionError, KeyError, AttributeError, TypeError, ValueError, IndexError) as e:
-            stats["gave_up"].append(f"{q}: {type(e).__name__} {e}")
-            all_equiv_or_same = False
-            continue
+            # too large for a whole-function summary: keep the top-level structure, compare the pieces
+            sa = sr = None
+            try:
+                for alpha in (False, True):
+                    ca_, cr_ = chunk_summary(node, ctx_a, cls, alpha), chunk_summary(rnode, ctx_r, rcls, alpha)
+                    if ca_ == cr_:
+                        sa = sr = ca_
+                        break
+            except (Giveup, RecursionError, KeyError, AttributeError, TypeError, ValueError, IndexError) as e2:
+                e = e2
+            if sa is None:
+                stats["gave_up"].append(f"{q}: {type(e).__name__} {e}")
+                all_equiv_or_same = False
+                continue
         if sa == sr:
             body[i] = rnode
             stats["equivalent"].append(q)
